@@ -129,7 +129,9 @@ def build_dataset(rng, kind):
         big_cfg = MazeDatasetConfig(name="f", grid_n=3, n_mazes=int(rng.choice([130, 260])), maze_ctor=GENERATORS_MAP["gen_dfs"], seed=cfg.seed)
         mazes = list(MazeDataset.generate(big_cfg, verbose=False).mazes)
         n, ctor = 3, "gen_dfs"
-    cfg2 = MazeDatasetConfig(name="f", grid_n=n, n_mazes=len(mazes), maze_ctor=GENERATORS_MAP[ctor], maze_ctor_kwargs=(dict(p=0.3) if ctor == "gen_dfs_percolation" else {}), seed=cfg.seed)
+    # the configuration's n_mazes (compare=False in the library) may lag behind the real number of mazes: a filter works on the mazes
+    stale = int(rng.choice([0, 0, 0, 3, -1]))
+    cfg2 = MazeDatasetConfig(name="f", grid_n=n, n_mazes=max(0, len(mazes) + stale), maze_ctor=GENERATORS_MAP[ctor], maze_ctor_kwargs=(dict(p=0.3) if ctor == "gen_dfs_percolation" else {}), seed=cfg.seed)
     return MazeDataset(cfg=cfg2, mazes=mazes)
 
 
